@@ -336,3 +336,313 @@ Theorem C03_converter_coercion :
        end.
 Proof. exact set_eval_result_spec. Qed.
 Print Assumptions C03_converter_coercion.
+
+(* ==== the value-dispatch layer translated from the source (tools/translate_ivalue.py -> gen/IValueSrc.v over model/IvOps.v;
+   proofs/P_C03s.v) ==== *)
+From Cam Require Import IvOps IValueSrc P_C03s.
+
+(* the I*Kind::maybe_from tables translated from interface.rs are the model's interface kinds *)
+Theorem C03_kinds_from_source :
+  forall (fops : float_ops) (nodes : list node) (call : req -> M ans) (ent : nat -> option eentry) (n : nat),
+  let E := EV fops nodes call ent in
+  src_IIntegerKind_maybe_from E n = (if is_int (body_of nodes n) then Some n else None) /\
+  src_IFloatKind_maybe_from E n = (if is_flt (body_of nodes n) then Some n else None) /\
+  src_IStringKind_maybe_from E n = (if is_str (body_of nodes n) then Some n else None) /\
+  src_IEnumerationKind_maybe_from E n = (if is_enum (body_of nodes n) then Some n else None) /\
+  src_IBooleanKind_maybe_from E n = (if is_bool (body_of nodes n) then Some n else None).
+Proof. exact kinds_from_source. Qed.
+Print Assumptions C03_kinds_from_source.
+
+(* IValue<i64> / <f64> / <String> for NodeId translated from ivalue.rs (order of the as_*_kind tests, what each branch calls, conversions, final errors) are the model's nid_get_i / nid_set_i / nid_get_f / nid_set_f / nid_readable and the pValue arm of its NString clauses, for every store, node and state *)
+Theorem C03_nodeid_dispatch_from_source :
+  forall (fops : float_ops) (nodes : list node) (call : req -> M ans) (ent : nat -> option eentry)
+  (n : nat) (s : state),
+  let E := EV fops nodes call ent in
+  (IValue_value (src_NodeId_IValue_i64 E) n s = nid_get_i fops nodes call n s /\
+  (forall v : Z, IValue_set_value (src_NodeId_IValue_i64 E) n v s = nid_set_i fops nodes call n v s)) /\
+  (IValue_value (src_NodeId_IValue_f64 E) n s = nid_get_f fops nodes call n s /\
+  (forall v : Z, IValue_set_value (src_NodeId_IValue_f64 E) n v s = nid_set_f fops nodes call n v s)) /\
+  (IValue_is_readable (src_NodeId_IValue_i64 E) n s = nid_readable nodes call n s /\
+  IValue_is_readable (src_NodeId_IValue_f64 E) n s = nid_readable nodes call n s) /\
+  IValue_value (src_NodeId_IValue_String E) n s =
+  (if is_str (body_of nodes n) then let! a := call (QStrValue n) in as_l a else merr Mem.E_INVALID_NODE) s /\
+  (forall v : list Z,
+  IValue_set_value (src_NodeId_IValue_String E) n v s =
+  (if is_str (body_of nodes n) then let! a := call (QStrSet n v) in as_u a else merr Mem.E_INVALID_NODE) s).
+Proof. exact nodeid_dispatch_from_source. Qed.
+Print Assumptions C03_nodeid_dispatch_from_source.
+
+(* the instances impl_ivalue_for_vid! generates (through the translated ValueStore::integer_value / float_value / str_value) are the model's vid_int / vid_flt / vid_str / vid_set; the two cross instances convert after the slot conversion *)
+Theorem C03_valueid_from_source :
+  forall (fops : float_ops) (nodes : list node) (call : req -> M ans) (ent : nat -> option eentry)
+  (vid : nat) (s : state),
+  let E := EV fops nodes call ent in
+  (IValue_value (src_IntegerId_IValue_i64 E) vid s = vid_int fops vid s /\
+  (forall v : Z, IValue_set_value (src_IntegerId_IValue_i64 E) vid v s = vid_set vid (VI v) s)) /\
+  (IValue_value (src_FloatId_IValue_f64 E) vid s = vid_flt fops vid s /\
+  (forall v : Z, IValue_set_value (src_FloatId_IValue_f64 E) vid v s = vid_set vid (VF v) s)) /\
+  (IValue_value (src_StringId_IValue_String E) vid s = vid_str vid s /\
+  (forall v : list Z, IValue_set_value (src_StringId_IValue_String E) vid v s = vid_set vid (VS v) s)) /\
+  (IValue_value (src_IntegerId_IValue_f64 E) vid s = (let! z := vid_int fops vid in mret (i2f fops z)) s /\
+  (forall v : Z, IValue_set_value (src_IntegerId_IValue_f64 E) vid v s = vid_set vid (VF v) s)) /\
+  IValue_value (src_FloatId_IValue_i64 E) vid s = (let! b := vid_flt fops vid in mret (f2i fops b)) s /\
+  (forall v : Z, IValue_set_value (src_FloatId_IValue_i64 E) vid v s = vid_set vid (VI v) s).
+Proof. exact valueid_from_source. Qed.
+Print Assumptions C03_valueid_from_source.
+
+(* IValue for ImmOrPNode with the dictionaries rustc resolves (IntegerId / FloatId / i64 / f64 immediates from impl_ivalue_for_imm!) is src_get_i .. isrc_get_f; an immediate is not writable *)
+Theorem C03_immorpnode_from_source :
+  forall (fops : float_ops) (nodes : list node) (call : req -> M ans) (ent : nat -> option eentry) (s : state),
+  (forall x : src, IValue_value (D_src_i fops nodes call ent) (of_src x) s = src_get_i fops nodes call x s) /\
+  (forall (x : src) (v : Z),
+  IValue_set_value (D_src_i fops nodes call ent) (of_src x) v s = src_set_i fops nodes call x v s) /\
+  (forall x : src, IValue_value (D_src_f fops nodes call ent) (of_src x) s = src_get_f fops nodes call x s) /\
+  (forall (x : src) (v : Z),
+  IValue_set_value (D_src_f fops nodes call ent) (of_src x) v s = src_set_f fops nodes call x v s) /\
+  (forall x : src, IValue_is_readable (D_src_i fops nodes call ent) (of_src x) s = src_readable nodes call x s) /\
+  (forall x : src, IValue_is_readable (D_src_f fops nodes call ent) (of_src x) s = src_readable nodes call x s) /\
+  (forall x : isrc, IValue_value (D_isrc_i fops nodes call ent) (of_isrc x) s = isrc_get_i fops nodes call x s) /\
+  (forall x : isrc, IValue_value (D_isrc_f fops nodes call ent) (of_isrc x) s = isrc_get_f fops nodes call x s) /\
+  (forall z v : Z,
+  IValue_set_value (D_isrc_i fops nodes call ent) (of_isrc (IImm z)) v s = (Err E_NOT_WRITABLE, s)).
+Proof. exact immorpnode_from_source. Qed.
+Print Assumptions C03_immorpnode_from_source.
+
+(* IValue for ValueKind (Value / PValue / PIndex arms) is vk_get_i / vk_set_i / vk_get_f / vk_set_f / vk_readable for every ValueKind of the model (any number of copies and indexed values) *)
+Theorem C03_valuekind_from_source :
+  forall (fops : float_ops) (nodes : list node) (call : req -> M ans) (ent : nat -> option eentry)
+  (v : vkind) (s : state),
+  (IValue_value (D_vk_i fops nodes call ent) (of_vk v) s = vk_get_i fops nodes call v s /\
+  (forall x : Z, IValue_set_value (D_vk_i fops nodes call ent) (of_vk v) x s = vk_set_i fops nodes call v x s)) /\
+  (IValue_value (D_vk_f fops nodes call ent) (of_vk v) s = vk_get_f fops nodes call v s /\
+  (forall x : Z, IValue_set_value (D_vk_f fops nodes call ent) (of_vk v) x s = vk_set_f fops nodes call v x s)) /\
+  IValue_is_readable (D_vk_i fops nodes call ent) (of_vk v) s = vk_readable nodes call v s /\
+  IValue_is_readable (D_vk_f fops nodes call ent) (of_vk v) s = vk_readable nodes call v s.
+Proof. exact valuekind_from_source. Qed.
+Print Assumptions C03_valuekind_from_source.
+
+(* IValue for PValue: value from pValue; set_value to pValue and then every pValueCopy in order (mfold), for lists of any length *)
+Theorem C03_pvalue_copies_from_source :
+  forall (fops : float_ops) (nodes : list node) (call : req -> M ans) (ent : nat -> option eentry)
+  (p : nat) (cs : list nat) (s : state),
+  (forall v : Z,
+  IValue_set_value (src_PValue_IValue (Ty:=nat) (D_ni fops nodes call ent))
+  {| PValue_p_value := p; PValue_p_value_copies := cs |} v s =
+  (let! _ := nid_set_i fops nodes call p v in mfold (fun c : nat => nid_set_i fops nodes call c v) cs) s) /\
+  (forall v : Z,
+  IValue_set_value (src_PValue_IValue (Ty:=nat) (D_nf fops nodes call ent))
+  {| PValue_p_value := p; PValue_p_value_copies := cs |} v s =
+  (let! _ := nid_set_f fops nodes call p v in mfold (fun c : nat => nid_set_f fops nodes call c v) cs) s) /\
+  IValue_value (src_PValue_IValue (Ty:=nat) (D_ni fops nodes call ent))
+  {| PValue_p_value := p; PValue_p_value_copies := cs |} s = nid_get_i fops nodes call p s /\
+  IValue_value (src_PValue_IValue (Ty:=nat) (D_nf fops nodes call ent))
+  {| PValue_p_value := p; PValue_p_value_copies := cs |} s = nid_get_f fops nodes call p s.
+Proof. exact pvalue_copies_from_source. Qed.
+Print Assumptions C03_pvalue_copies_from_source.
+
+(* IValue for PIndex and PIndex::index: the index through expect_iinteger_kind, then the model's pindex_pick *)
+Theorem C03_pindex_from_source :
+  forall (fops : float_ops) (nodes : list node) (call : req -> M ans) (ent : nat -> option eentry)
+  (idx : nat) (ents : list (Z * src)) (d : src) (s : state),
+  let x :=
+  {| PIndex_p_index := idx; PIndex_value_indexed := map of_ent ents; PIndex_value_default := of_src d |} in
+  src_PIndex_index (EV fops nodes call ent) x s = pindex_index nodes call idx s /\
+  IValue_value
+  (src_PIndex_IValue (EV fops nodes call ent) (D_ii fops nodes call ent) (D_src_i fops nodes call ent)) x s =
+  (let! i := pindex_index nodes call idx in src_get_i fops nodes call (pindex_pick i ents d)) s /\
+  (forall v : Z,
+  IValue_set_value
+  (src_PIndex_IValue (EV fops nodes call ent) (D_ii fops nodes call ent) (D_src_i fops nodes call ent)) x v s =
+  (let! i := pindex_index nodes call idx in src_set_i fops nodes call (pindex_pick i ents d) v) s) /\
+  IValue_value
+  (src_PIndex_IValue (EV fops nodes call ent) (D_ff fops nodes call ent) (D_src_f fops nodes call ent)) x s =
+  (let! i := pindex_index nodes call idx in src_get_f fops nodes call (pindex_pick i ents d)) s /\
+  (forall v : Z,
+  IValue_set_value
+  (src_PIndex_IValue (EV fops nodes call ent) (D_ff fops nodes call ent) (D_src_f fops nodes call ent)) x v s =
+  (let! i := pindex_index nodes call idx in src_set_f fops nodes call (pindex_pick i ents d) v) s).
+Proof. exact pindex_from_source. Qed.
+Print Assumptions C03_pindex_from_source.
+
+(* value / set_value / min / max of IntegerNode translated from integer.rs are the NInteger clauses of step *)
+Theorem C03_integer_from_source :
+  forall (fops : float_ops) (nodes : list node) (call : req -> M ans) (ent : nat -> option eentry)
+  (n : nat) (v : vkind) (mn mx : src) (inc : isrc) (s : state) (x : Z),
+  body_of nodes n = NInteger v mn mx inc ->
+  step fops nodes call (QIntValue n) s =
+  (let! r := src_IntegerNode_value (EV fops nodes call ent) (integer_node n v mn mx) in mret (AZ r)) s /\
+  step fops nodes call (QIntSet n x) s =
+  (let! _ := src_IntegerNode_set_value (EV fops nodes call ent) (integer_node n v mn mx) x in mret AUnit) s /\
+  step fops nodes call (QIntMin n) s =
+  (let! r := src_IntegerNode_min (EV fops nodes call ent) (integer_node n v mn mx) in mret (AZ r)) s /\
+  step fops nodes call (QIntMax n) s =
+  (let! r := src_IntegerNode_max (EV fops nodes call ent) (integer_node n v mn mx) in mret (AZ r)) s.
+Proof. exact integer_node_src. Qed.
+Print Assumptions C03_integer_from_source.
+
+(* value / set_value / min / max of FloatNode translated from float.rs are the NFloat clauses of step *)
+Theorem C03_float_from_source :
+  forall (fops : float_ops) (nodes : list node) (call : req -> M ans) (ent : nat -> option eentry)
+  (n : nat) (v : vkind) (mn mx : src) (inc : option isrc) (s : state) (x : Z),
+  body_of nodes n = NFloat v mn mx inc ->
+  step fops nodes call (QFltValue n) s =
+  (let! r := src_FloatNode_value (EV fops nodes call ent) (float_node n v mn mx) in mret (AZ r)) s /\
+  step fops nodes call (QFltSet n x) s =
+  (let! _ := src_FloatNode_set_value (EV fops nodes call ent) (float_node n v mn mx) x in mret AUnit) s /\
+  step fops nodes call (QFltMin n) s =
+  (let! r := src_FloatNode_min (EV fops nodes call ent) (float_node n v mn mx) in mret (AZ r)) s /\
+  step fops nodes call (QFltMax n) s =
+  (let! r := src_FloatNode_max (EV fops nodes call ent) (float_node n v mn mx) in mret (AZ r)) s.
+Proof. exact float_node_src. Qed.
+Print Assumptions C03_float_from_source.
+
+(* value / set_value of BooleanNode translated from boolean.rs (On / Off both ways, InvalidNode for neither) are the NBoolean clauses of step *)
+Theorem C03_boolean_from_source :
+  forall (fops : float_ops) (nodes : list node) (call : req -> M ans) (ent : nat -> option eentry)
+  (n : nat) (v : src) (on off : Z) (s : state) (b : bool),
+  body_of nodes n = NBoolean v on off ->
+  step fops nodes call (QBoolValue n) s =
+  (let! r := src_BooleanNode_value (EV fops nodes call ent) (boolean_node n v on off) in mret (AB r)) s /\
+  step fops nodes call (QBoolSet n b) s =
+  (let! _ := src_BooleanNode_set_value (EV fops nodes call ent) (boolean_node n v on off) b in mret AUnit) s.
+Proof. exact boolean_node_src. Qed.
+Print Assumptions C03_boolean_from_source.
+
+(* current_value / set_entry_by_value of EnumerationNode translated from enumeration.rs (entry lookup over any number of entries) are the NEnumeration clauses of step; ent gives the EnumEntry node behind an id *)
+Theorem C03_enumeration_from_source :
+  forall (fops : float_ops) (nodes : list node) (call : req -> M ans) (ent : nat -> option eentry)
+  (n : nat) (ents : list eentry) (ids : list nat) (v : src) (s : state) (x : Z),
+  body_of nodes n = NEnumeration ents v ->
+  map ent ids = map Some ents ->
+  step fops nodes call (QEnumValue n) s =
+  (let! r := src_EnumerationNode_current_value (EV fops nodes call ent) (enumeration_node n ids v)
+  in mret (AZ r)) s /\
+  step fops nodes call (QEnumSet n x) s =
+  (let! _ := src_EnumerationNode_set_entry_by_value (EV fops nodes call ent) (enumeration_node n ids v) x
+  in mret AUnit) s.
+Proof. exact enumeration_node_src. Qed.
+Print Assumptions C03_enumeration_from_source.
+
+(* execute / is_done of CommandNode translated from command.rs are the NCommand clauses of step *)
+Theorem C03_command_from_source :
+  forall (fops : float_ops) (nodes : list node) (call : req -> M ans) (ent : nat -> option eentry)
+  (n : nat) (v cv : src) (s : state),
+  body_of nodes n = NCommand v cv ->
+  step fops nodes call (QCmdExec n) s =
+  (let! _ := src_CommandNode_execute (EV fops nodes call ent) (command_node n v cv) in mret AUnit) s /\
+  step fops nodes call (QCmdDone n) s =
+  (let! r := src_CommandNode_is_done (EV fops nodes call ent) (command_node n v cv) in mret (AB r)) s.
+Proof. exact command_node_src. Qed.
+Print Assumptions C03_command_from_source.
+
+(* with the requests to other nodes answered by the model's evaluator at fuel f, the translated node methods are the model's evaluator at fuel S f *)
+Theorem C03_run_from_source :
+  forall (fops : float_ops) (nodes : list node) (ent : nat -> option eentry) (f n : nat) (s : state),
+  (forall (v : vkind) (mn mx : src) (inc : isrc) (x : Z),
+  body_of nodes n = NInteger v mn mx inc ->
+  let E := EV fops nodes (run fops nodes f) ent in
+  run fops nodes (S f) (QIntValue n) s =
+  (let! r := src_IntegerNode_value E (integer_node n v mn mx) in mret (AZ r)) s /\
+  run fops nodes (S f) (QIntSet n x) s =
+  (let! _ := src_IntegerNode_set_value E (integer_node n v mn mx) x in mret AUnit) s) /\
+  (forall (v : vkind) (mn mx : src) (inc : option isrc) (x : Z),
+  body_of nodes n = NFloat v mn mx inc ->
+  let E := EV fops nodes (run fops nodes f) ent in
+  run fops nodes (S f) (QFltValue n) s =
+  (let! r := src_FloatNode_value E (float_node n v mn mx) in mret (AZ r)) s /\
+  run fops nodes (S f) (QFltSet n x) s =
+  (let! _ := src_FloatNode_set_value E (float_node n v mn mx) x in mret AUnit) s) /\
+  (forall (v : src) (on off : Z) (b : bool),
+  body_of nodes n = NBoolean v on off ->
+  let E := EV fops nodes (run fops nodes f) ent in
+  run fops nodes (S f) (QBoolValue n) s =
+  (let! r := src_BooleanNode_value E (boolean_node n v on off) in mret (AB r)) s /\
+  run fops nodes (S f) (QBoolSet n b) s =
+  (let! _ := src_BooleanNode_set_value E (boolean_node n v on off) b in mret AUnit) s) /\
+  (forall (ents : list eentry) (ids : list nat) (v : src) (x : Z),
+  body_of nodes n = NEnumeration ents v ->
+  map ent ids = map Some ents ->
+  let E := EV fops nodes (run fops nodes f) ent in
+  run fops nodes (S f) (QEnumValue n) s =
+  (let! r := src_EnumerationNode_current_value E (enumeration_node n ids v) in mret (AZ r)) s /\
+  run fops nodes (S f) (QEnumSet n x) s =
+  (let! _ := src_EnumerationNode_set_entry_by_value E (enumeration_node n ids v) x in mret AUnit) s) /\
+  (forall v cv : src,
+  body_of nodes n = NCommand v cv ->
+  let E := EV fops nodes (run fops nodes f) ent in
+  run fops nodes (S f) (QCmdExec n) s =
+  (let! _ := src_CommandNode_execute E (command_node n v cv) in mret AUnit) s /\
+  run fops nodes (S f) (QCmdDone n) s =
+  (let! r := src_CommandNode_is_done E (command_node n v cv) in mret (AB r)) s).
+Proof. exact run_from_source. Qed.
+Print Assumptions C03_run_from_source.
+
+(* on the translated code alone, for ANY dictionary: set_value through a PValue writes the main target first and then every copy in declaration order, stopping at the first failure *)
+Theorem C03_pvalue_write_order_of_source :
+  forall (T Ty : Type) (D : src_IValue T nat) (p : nat) (cs : list nat) (v : T) (s : state),
+  IValue_set_value (src_PValue_IValue (Ty:=Ty) D) {| PValue_p_value := p; PValue_p_value_copies := cs |} v s =
+  writes_in_order D v (p :: cs) s.
+Proof. exact pvalue_write_order_of_source. Qed.
+Print Assumptions C03_pvalue_write_order_of_source.
+
+(* on the translated code alone, for ANY dictionaries: a PIndex evaluates the index first and then uses the FIRST indexed value with that index, the default only if there is none *)
+Theorem C03_pindex_first_match_of_source :
+  forall (fops : float_ops) (nodes : list node) (call : req -> M ans) (ent : nat -> option eentry)
+  (T Ty : Type) (D1 : src_IValue T Ty) (D2 : src_IValue T (src_ImmOrPNode Ty)) (x : src_PIndex Ty)
+  (s : state),
+  let E := EV fops nodes call ent in
+  IValue_value (src_PIndex_IValue E D1 D2) x s =
+  (let! i := src_PIndex_index E x
+  in IValue_value D2 (first_match i (PIndex_value_indexed x) (PIndex_value_default x))) s /\
+  (forall v : T,
+  IValue_set_value (src_PIndex_IValue E D1 D2) x v s =
+  (let! i := src_PIndex_index E x
+  in IValue_set_value D2 (first_match i (PIndex_value_indexed x) (PIndex_value_default x)) v) s).
+Proof. exact pindex_first_match_of_source. Qed.
+Print Assumptions C03_pindex_first_match_of_source.
+
+(* on the translated code alone: BooleanNode::value is true for OnValue (also when OnValue = OffValue), false for OffValue, InvalidNode otherwise, in the state the read of the value left *)
+Theorem C03_boolean_value_of_source :
+  forall (fops : float_ops) (nodes : list node) (call : req -> M ans) (ent : nat -> option eentry)
+  (nd : src_BooleanNode) (s : state),
+  src_BooleanNode_value (EV fops nodes call ent) nd s =
+  (let (o, s') := IValue_value (D_src_i fops nodes call ent) (BooleanNode_value nd) s in
+  match o with
+  | Ok x =>
+  if x =? BooleanNode_on_value nd
+  then (Ok true, s')
+  else if x =? BooleanNode_off_value nd then (Ok false, s') else (Err Mem.E_INVALID_NODE, s')
+  | Err e => (Err e, s')
+  | Panic => (Panic, s')
+  end).
+Proof. exact boolean_value_of_source. Qed.
+Print Assumptions C03_boolean_value_of_source.
+
+(* on the translated code alone: set_entry_by_value with a value no entry has is InvalidData and leaves the state unchanged *)
+Theorem C03_enumeration_reject_of_source :
+  forall (fops : float_ops) (nodes : list node) (call : req -> M ans) (ent : nat -> option eentry)
+  (n : nat) (ents : list eentry) (ids : list nat) (v : src) (x : Z) (s : state),
+  map ent ids = map Some ents ->
+  (forall e : eentry, In e ents -> ee_val e <> x) ->
+  src_EnumerationNode_set_entry_by_value (EV fops nodes call ent) (enumeration_node n ids v) x s =
+  (Err Mem.E_INVALID_DATA, s).
+Proof. exact enumeration_reject_of_source. Qed.
+Print Assumptions C03_enumeration_reject_of_source.
+
+(* non-vacuity (vm_compute): the translated IntegerNode::set_value / value on a concrete store with a pIndex over a pValue with a copy *)
+Theorem C03_source_example :
+  forall fops : float_ops,
+  let E := EV fops ex_src_nodes (run fops ex_src_nodes 4) (fun _ : nat => None) in
+  let r :=
+  src_IntegerNode_set_value E
+  (integer_node 3 (VPIndex 1 [(5, SImm 1); (0, SNode 2); (0, SImm 1)] (SImm 1)) (SImm 2) (SImm 2)) 7
+  ex_src_state in
+  fst r = Ok tt /\
+  s_vals (snd r) = [VI 7; VI 50; VI 9] /\
+  d_log (s_dev (snd r)) = [WrAcc 256 [7; 0]] /\
+  fst
+  (src_IntegerNode_value E
+  (integer_node 3 (VPIndex 1 [(5, SImm 1); (0, SNode 2); (0, SImm 1)] (SImm 1)) (SImm 2) (SImm 2))
+  (snd r)) = Ok 50.
+Proof. exact source_example. Qed.
+Print Assumptions C03_source_example.
